@@ -6,6 +6,7 @@
 package c18
 
 import (
+	"os"
 	"encoding/base64"
 	"encoding/json"
 	"fmt"
@@ -14,11 +15,13 @@ import (
 	"time"
 
 	"github.com/google/certificate-transparency-go/trillian/ctfe"
+	"github.com/google/certificate-transparency-go/trillian/ctfe/configpb"
 	"github.com/google/certificate-transparency-go/x509"
 	"github.com/google/certificate-transparency-go/x509util"
 	"google.golang.org/protobuf/types/known/timestamppb"
 	"pgregory.net/rapid"
 
+	"verif/internal/ctfex"
 	"verif/internal/keys"
 	"verif/internal/pki"
 	"verif/internal/world"
@@ -237,10 +240,17 @@ type ChainKind struct {
 	Root    int  // index into world.Roots()
 	Inter   bool // one intermediate between root and leaf
 	Precert bool // leaf carries the poison extension (submitted through add-pre-chain)
+	// Lone: the submission is ONE certificate, a self-signed root with the drawn NotAfter that the log
+	// trusts (RFC 6962 s3.1 lets a chain consist of a root); its NotAfter is judged like any leaf's.
+	Lone bool `json:",omitempty"`
 }
 
 func genChainKind(t *rapid.T) ChainKind {
-	return ChainKind{Root: rapid.IntRange(0, len(world.RootKinds)-1).Draw(t, "root"), Inter: rapid.Bool().Draw(t, "inter"), Precert: rapid.IntRange(0, 3).Draw(t, "pre") == 0}
+	k := ChainKind{Root: rapid.IntRange(0, len(world.RootKinds)-1).Draw(t, "root"), Inter: rapid.Bool().Draw(t, "inter"), Precert: rapid.IntRange(0, 3).Draw(t, "pre") == 0}
+	if rapid.IntRange(0, 5).Draw(t, "lone") == 0 {
+		k = ChainKind{Root: k.Root, Lone: true}
+	}
+	return k
 }
 
 type leafKey struct {
@@ -270,10 +280,79 @@ func roots() *x509util.PEMCertPool {
 			if err != nil {
 				panic(fmt.Sprintf("c18: world root does not parse: %v", err))
 			}
+			worldParsed = append(worldParsed, c)
 			rootPool.AddCert(c)
 		}
 	})
 	return rootPool
+}
+
+var worldParsed []*x509.Certificate
+
+// poolWith is the standard trust set plus the given extra roots.
+func poolWith(extra []*pki.Cert) *x509util.PEMCertPool {
+	roots()
+	p := x509util.NewPEMCertPool()
+	for _, c := range worldParsed {
+		p.AddCert(c)
+	}
+	for _, e := range extra {
+		c, err := x509.ParseCertificate(e.DER)
+		if err != nil {
+			panic(fmt.Sprintf("c18: generated root does not parse: %v", err))
+		}
+		p.AddCert(c)
+	}
+	return p
+}
+
+// trustFor returns what a log must trust for the case: the standard roots, plus - for lone-root
+// submissions - the generated root of every NotAfter second the case will submit.
+func trustFor(k ChainKind, secs []int64) (*x509util.PEMCertPool, []*pki.Cert) {
+	if !k.Lone {
+		return roots(), world.Roots()
+	}
+	var extra []*pki.Cert
+	seen := map[int64]bool{}
+	for _, s := range secs {
+		if s < minCert || s > maxCert || seen[s] {
+			continue
+		}
+		seen[s] = true
+		extra = append(extra, chainFor(s, k).leaf)
+	}
+	return poolWith(extra), append(append([]*pki.Cert{}, world.Roots()...), extra...)
+}
+
+// secsOf lists the certificate seconds next to the probed instants.
+func secsOf(probes []Inst) []int64 {
+	var out []int64
+	for _, p := range probes {
+		for _, s := range certSeconds(p) {
+			out = append(out, s.S)
+		}
+	}
+	return out
+}
+
+// newInstance is ctfex.New; for lone-root cases (a distinct trust set per case) the content-addressed
+// roots file is removed again once the instance has read it.
+func newInstance(o ctfex.Opts, lone bool) (*ctfex.Instance, error) {
+	var path string
+	inner := o.Cfg
+	o.Cfg = func(lc *configpb.LogConfig) {
+		if len(lc.RootsPemFile) > 0 {
+			path = lc.RootsPemFile[0]
+		}
+		if inner != nil {
+			inner(lc)
+		}
+	}
+	inst, err := ctfex.New(o)
+	if lone && path != "" {
+		os.Remove(path)
+	}
+	return inst, err
 }
 
 func intermediate(root int) *pki.Cert {
@@ -307,6 +386,25 @@ func chainFor(sec int64, k ChainKind) *chain {
 	}
 	if len(leafCache) > 4096 {
 		leafCache = map[leafKey]*chain{}
+	}
+	if k.Lone {
+		kk := keys.Pick("p256", 40+int(sec%5))
+		t := pki.CATemplate(fmt.Sprintf("C18 Lone Root %d", sec), kk, sec-minCert+1, nil)
+		na := time.Unix(sec, 0).UTC()
+		t.NotAfter = na
+		t.NotBefore = na.AddDate(-10, 0, 0)
+		root := pki.Issue(nil, t, fmt.Sprintf("c18lone%d", sec))
+		c := &chain{leaf: root, ders: [][]byte{root.DER}}
+		opts := ctfe.NewCertValidationOpts(poolWith([]*pki.Cert{root}), pki.Epoch, false, false, nil, nil, false, nil)
+		path, err := ctfe.ValidateChain(c.ders, opts)
+		if err != nil {
+			panic(fmt.Sprintf("c18: generated lone root (NotAfter %d) is refused without any window by a log trusting it: %v", sec, err))
+		}
+		if got := path[0].NotAfter; got.Unix() != sec || got.Nanosecond() != 0 || len(path) != 1 {
+			panic(fmt.Sprintf("c18: generated lone root parses with NotAfter %v (path of %d), want unix %d", got, len(path), sec))
+		}
+		leafCache[key] = c
+		return c
 	}
 	issuer := world.Roots()[k.Root]
 	var ders [][]byte
